@@ -7,7 +7,7 @@ import json
 import os
 import random
 
-from . import core, fncases
+from . import core, suite, fncases
 from .values import enc
 
 
@@ -73,6 +73,9 @@ def main(tier, replay=None):
     rng = random.Random(run.seed)
     cases += [rand_case(rng) for _ in range(3000 if quick else 60000)]
     obs = fncases.observe(lib, cases)
+    so = suite.observations({'AND','OR','XOR','NOT','IF','IFS','SWITCH','ISNUMBER','ISTEXT','ISLOGICAL','ISBLANK','ISERROR','ISERR','ISNA','ISNONTEXT','ISEVEN','ISODD','TRUE','FALSE'}, len(obs) + 1)   # the same functions as the repository's own tests call them
+    run.extra['calls_from_repository_tests'] = len(so)
+    obs += so
     CH = 25000
     for k in range(0, len(obs), CH):
         part = obs[k:k + CH]
